@@ -531,11 +531,16 @@ def run(ctx):
             return np.float32((1 + rng.randrange(2 ** 23) / 2.0 ** 23) * 2.0 ** rng.randrange(-3, 27))
         if kind == "near-2^24":
             return np.float32(rng.choice([16777216.0, 16777218.0, 33554432.0, 1.0, 3.0, 0.5]) + rng.randrange(0, 8))
+        if kind == "overflow":
+            # round 5: entries of both signs near the top of the binary32 range — differences overflow to
+            # +-inf in hardware (`fabsf(inf) < eps` is false); theorem binary32_overflow_rejected
+            return np.float32(rng.choice([-1.0, 1.0]) * (1 + rng.randrange(2 ** 23) / 2.0 ** 23)
+                              * 2.0 ** rng.choice([127, 127, 126, 125]))
         return np.float32(rng.choice([2.0 ** -140 * rng.randrange(1, 1000), 2.0 ** 100 * (1 + rng.random()),
                                       rng.uniform(0, 4)]))
 
     def f32_matrix(n):
-        kind = rng.choice(["uniform", "mixed-exponents", "mixed-exponents", "near-2^24", "tiny+huge"])
+        kind = rng.choice(["uniform", "mixed-exponents", "mixed-exponents", "near-2^24", "tiny+huge", "overflow"])
         D = np.zeros((n, n), dtype=np.float32)
         for i in range(n):
             for j in range(i):
@@ -548,9 +553,15 @@ def run(ctx):
         # tolerance: on / next to the boundary of `<` for some difference as binary32 computes it
         cells = [(i, j) for i in range(n) for j in range(n) if i != j]
         (a, b), (c_, d) = rng.choice(cells), rng.choice(cells)
-        z = np.abs(np.float32(D[a, b] - D[c_, d]))
+        with np.errstate(all="ignore"):
+            z = np.abs(np.float32(D[a, b] - D[c_, d]))
         ek = rng.choice(["boundary", "next-up", "next-down", "value", "huge"])
-        if ek == "huge" or not np.isfinite(z) or z == 0:
+        if not np.isfinite(z):
+            ctx.count("geo:f32:the probed difference overflows to inf")
+        if kind == "overflow":
+            eps = rng.choice([np.finfo(np.float32).max, np.float32(2.0 ** 127), abs(f32_value(kind)),
+                              np.float32(2.0 ** 120)])
+        elif ek == "huge" or not np.isfinite(z) or z == 0:
             eps = np.float32(2.0 ** 120) if ek == "huge" else f32_value(kind)
         elif ek == "boundary":
             eps = z
@@ -562,8 +573,11 @@ def run(ctx):
             eps = f32_value(kind)
         if not (eps > 0 and np.isfinite(eps)):
             eps = np.float32(1.0)
-        inexact = any(Fraction(float(np.float32(D[i, j] - D[k_, l_]))) != Fraction(float(D[i, j])) - Fraction(float(D[k_, l_]))
-                      for (i, j) in cells[:12] for (k_, l_) in cells[:12])
+        with np.errstate(all="ignore"):
+            inexact = any(not np.isfinite(np.float32(D[i, j] - D[k_, l_]))
+                          or Fraction(float(np.float32(D[i, j] - D[k_, l_])))
+                          != Fraction(float(D[i, j])) - Fraction(float(D[k_, l_]))
+                          for (i, j) in cells[:12] for (k_, l_) in cells[:12])
         ctx.count(f"geo:f32:D={kind}:eps={ek}")
         ctx.count("geo:f32:" + ("some differences are rounded" if inexact else "all sampled differences exact"))
         den, ints = units(list(D.flatten()) + [eps])
@@ -626,22 +640,27 @@ def run(ctx):
             if not completed:
                 break
     # the two roundings themselves, against the hardware: binary32 subtraction, binary64 `u * E`
-    xs, got = [], []
+    xs, got, ovf = [], [], []
     for _ in range(300 if quick else 3000):
-        kind = rng.choice(["uniform", "mixed-exponents", "near-2^24", "tiny+huge"])
+        kind = rng.choice(["uniform", "mixed-exponents", "near-2^24", "tiny+huge", "overflow"])
         x, y = f32_value(kind), f32_value(kind)
         if rng.random() < 0.3:
             y = -y
         with np.errstate(all="ignore"):
             z = np.float32(x - y)
-        if not np.isfinite(z):
-            continue
         exact = Fraction(float(x)) - Fraction(float(y))
+        if not np.isfinite(z):
+            ovf.append(int(exact * 2 ** 149))
+            ctx.count("rnd32:overflow (hardware inf)")
+            continue
         xs.append(int(exact * 2 ** 149))
         got.append(int(Fraction(float(z)) * 2 ** 149))
         ctx.count("rnd32:" + ("rounded" if Fraction(float(z)) != exact else "exact"))
     reqs.append("rnd32 " + ",".join(map(str, xs)))
     impl.append(",".join(map(str, got)))
+    # where the hardware overflows the model's value is beyond every finite binary32 number
+    reqs.append("rnd32ovf " + (",".join(map(str, ovf)) or "-"))
+    impl.append(",".join("1" for _ in ovf) or "-")
     for _ in range(40 if quick else 400):
         E = rng.choice([1, 2, 3, 7, 2 ** 31 - 1, 2 ** 30 + 1, 2 ** 24 + 1, rng.randrange(1, 2 ** 31), rng.randrange(1, 300)])
         ks = []
